@@ -491,7 +491,7 @@ def nb(ctx, quick, thorough):
 
 def sub_cache(ctx):
     cases = []
-    for k in range(nb(ctx, 40, 400)):
+    for k in range(nb(ctx, 28, 400)):
         r = ctx.rng.random()
         names = (0,) if r < 0.6 else ((2,) if r < 0.8 else (0, 1))
         cases.append({"seed": ctx.rng.randrange(1 << 30), "names": list(names), "length": ctx.rng.randint(4, ctx.n(12, 40))})
@@ -1950,7 +1950,7 @@ def sub_derived(ctx):
 
 
 def sub_factory(ctx):
-    keys = ["S00", "S01", "G00", "G01", "P00", "P10", "M00", "M10"] + ([] if ctx.quick else ["S10", "S11", "G10", "G11", "S20", "S21", "P20"])
+    keys = ["S00", "G01", "P10", "M00"] + ([] if ctx.quick else ["S01", "G00", "P00", "M10", "S10", "S11", "G10", "G11", "S20", "S21", "P20"])
     cases = []
     for rep in range(ctx.n(1, 3)):
         ps = ctx.rng.randrange(1 << 30)
